@@ -158,6 +158,33 @@ Theorem C04_transfer_target_today : forall w, In w transfer_workers ->
 Proof. exact (transfer_target_checked _ _ C04_workers_use_authorised_path). Qed.
 Print Assumptions C04_transfer_target_today.
 
+(* ===== histories on one connection: CWD/CDUP and re-logins between requests =====
+   (a re-login may be completed by USER alone for a password-less or anonymous account, or by USER + PASS.)
+   For EVERY starting state with an absolute cwd, EVERY history of requests, CWD/CDUP (accepted or refused), logins
+   (any base, absolute home, any table) and other commands: each request is decided by the nearest entry, in the table
+   of the user logged in NOW, of normalize(cwd now, argument) -- nothing looked up for an earlier login or an earlier
+   working directory takes part (reqs_spec is an independent bookkeeping over (current table, stack of names)). *)
+Theorem C04_requests_use_current_table : forall h, Forall sreq_ok h -> forall st, abs_wf (r_cwd st) ->
+  reqs_run st h = reqs_spec (r_perms st, parts (r_cwd st)) h.
+Proof. exact reqs_run_spec. Qed.
+Print Assumptions C04_requests_use_current_table.
+
+(* ... and TODAY's PathPermissions wrapper does ask the user logged in now, on every call (closed check on Gen/Resolve.v) *)
+Theorem C04_lookup_asks_current_user :
+  check_pathperm_lookup Gen.Resolve.pp_conn_reads Gen.Resolve.pp_conn_writes Gen.Resolve.pp_conn_other
+                        Gen.Resolve.pp_lookup_direct = true.
+Proof. vm_compute. reflexivity. Qed.
+Print Assumptions C04_lookup_asks_current_user.
+
+(* the permission decision and the handler's own resolution of `rest` cannot be separated by a suspension (where a
+   pipelined CWD could run): on TODAY's source PathPermissions is the innermost decorator of every handler that
+   carries it -- the awaiting PathConditions and ConnectionConditions come before it -- and the body of every method
+   that calls get_paths begins with `.. = self.get_paths(connection, rest)` (closed check, recomputed on every run) *)
+Theorem C04_check_and_use_not_separated :
+  check_check_use_atomic Gen.Dispatch.handlers Gen.Resolve.body_resolves_first = true.
+Proof. vm_compute. reflexivity. Qed.
+Print Assumptions C04_check_and_use_not_separated.
+
 (* TODO (lead, Session model): deny_is_550_and_inert at session level -- a request for which
    verb_outcome = Deny550 queues exactly one 550 reply and leaves fs and cwd unchanged.  What is
    needed from this file: C04_verbs_today + C04_lookup_on_resolved; what is needed from Session:
